@@ -5,8 +5,8 @@ import math, itertools
 from fractions import Fraction
 from engine import Prop, fbits, bitsf, ratstr, tok_list, untok, close
 
-RATIONAL_KERNELS = ("uniform", "triangular", "epanechnikov")
-TABLE_KERNELS = ("gaussian", "exponential", "cubic", "spheric")
+RATIONAL_KERNELS = ("uniform", "triangular", "epanechnikov", "cubic", "spheric")   # kernel functions the model computes over Rat
+TABLE_KERNELS = ("gaussian", "exponential")                                         # math.exp: floats only (model: Float.exp)
 OBJ_KERNELS = RATIONAL_KERNELS + TABLE_KERNELS + ("dirac",)
 NAN = float("nan")
 _PRISTINE = None
@@ -62,6 +62,8 @@ def shape_weights(k):
         return [Fraction(w) for w in k["w"]]
     if t == "int":
         return [Fraction(1)] * max(0, k["n"])
+    if t == "num":
+        return []
     if t == "dirac":
         return [Fraction(0), Fraction(1), Fraction(0)]
     if t == "user":
@@ -107,11 +109,22 @@ def window_terms(w, v, i):
 
 
 def domain_ok(w, v, fb=True):
-    """property's domain: odd window, non-negative weights, signal at least as long as the window, and every
-    window keeps a positive total weight on its valid samples"""
-    if len(w) % 2 == 0 or len(v) < len(w) or any(x < 0 for x in w):
+    """property's domain: odd window, non-negative weights, and every window keeps a positive total weight on its
+    valid samples. The length of the signal is NOT part of it: the statement defines every output for a track shorter
+    than the window as well (a window that overhangs both ends is renormalised over the samples inside the track; when
+    boundaries are not filtered every index of such a track lies in the first or last half window and is returned
+    unchanged)"""
+    if len(w) % 2 == 0 or any(x < 0 for x in w):
         return False
     return all(sum(t[0] for t in window_terms(w, v, i)) > 0 for i in range(len(v)))
+
+
+def index_zone(w, fb, n):
+    """a track shorter than the HALF window whose boundaries are copied: the boundary loops of Filter.execute read
+    input[i] for i in range(D) and raise IndexError (Model: Err.index; theorem short_track_index_error). The property
+    quantifies over signals at least as long as the window, so the refusal is not judged; an output, if one is
+    returned, is (it must be the input unchanged)"""
+    return (not fb) and 0 < n < len(w) // 2
 
 
 def mean_oracle(w, v, fb):
@@ -211,36 +224,68 @@ class P(Prop):
         (M, "TV.C15.session_independent", "calls made one after the other in one process give what each gives alone and leave FILTER_X..FILTER_XYZ and Kernel.__filter_boundary as they were"),
         (M, "TV.C15.smooth_is_mean", "Track.smooth(width) = filter_seq(GaussianKernel(width)) on x,y,z with boundaries copied: each coordinate becomes its mean signal, features untouched"),
         (M, "TV.C15.dirac_identity", "the Dirac kernel ([0,1,0]) returns a NaN-free signal unchanged"),
+        (M, "TV.C15.inDomain_of_centre_weight", "non-negative weights with a positive centre weight on a NaN-free signal are in the domain: any length when boundaries are filtered, from the half window on when they are copied"),
+        (M, "TV.C15.short_track_filtered", "boundaries filtered, any track length (shorter than the window included): every output is the renormalised mean of its window, between two of its samples; on a track of at most D+1 points every window holds the whole track"),
+        (M, "TV.C15.short_track_unchanged", "boundaries copied, D <= size < N: the input is returned unchanged (NaN included)"),
+        (M, "TV.C15.short_track_index_error", "boundaries copied, size < D, no zero norm: the boundary copy raises IndexError (no value is returned)"),
+        (M, "TV.C15.execute_short_track", "Filter.execute as a whole (list / Kernel object / Dirac) on a short track with copied boundaries: unchanged for D <= size < N, IndexError for size < D"),
+        (M, "TV.C15.smooth_short_track", "Track.smooth on a track shorter than the Gaussian window but with at least D points: coordinates and features unchanged"),
+        (M, "TV.C15.smooth_too_short_fails", "Track.smooth on a track of fewer than D = int(3*width) points raises IndexError at the first coordinate; module-level state untouched"),
+        (M, "TV.C15.window_of_even_nonneg_kernel", "T5 for a kernel function even, non-negative everywhere, positive at 0, support >= 1: odd symmetric non-negative window summing to 1 with a positive centre weight"),
+        (M, "TV.C15.pow_kernels", "the Cubic/Spheric kernel functions (math.pow with integer exponents) are even, 1 at 0 and non-negative: (1-u)^4(3u^3+12u^2+16u+4)/4 and (1-u)^2(2+u)/2"),
+        (M, "TV.C15.pow_kernel_windows", "Cubic/Spheric kernels of any sigma >= 1: odd, symmetric, non-negative window summing to 1"),
+        (M, "TV.C15.exp_kernel_windows", "Gaussian/Exponential kernels, math.exp any positive-valued function, support 3*sigma >= 1: odd, symmetric, non-negative window summing to 1"),
+        (M, "TV.C15.smooth_gaussian", "Track.smooth(width) with the Gaussian function written out (math.exp positive): NaN-free coordinates of at least int(3*width) points become their mean signals under the Gaussian window, which exists and is well shaped"),
+        (M, "TV.C15.seqLoop_is_mean", "the loop `for af in dim` of filter_seq (any list length, Kernel object, Dirac): every listed signal becomes its mean signal, same window at every turn"),
+        (M, "TV.C15.operatePairs_inplace", "the in-place list form of Track.operate on feature names runs the loop of filter_seq"),
+        (M, "TV.C15.operate_output_omitted", "track.operate(FILTER, af, kernel) with the output name omitted filters af in place: it becomes (and the call returns) its mean signal, nothing else changes"),
+        (M, "TV.C15.operate_list_is_mean", "track.operate(FILTER, [names], kernel) with arg3 omitted or equal: every listed feature becomes its mean signal, one window for all, nothing returned, nothing else changed; lists of different lengths are refused"),
+        (M, "TV.C15.inDomain_normalise", "the domain does not depend on the scale of a weight list (it holds for the list normalised in place)"),
+        (M, "TV.C15.filterSeq_twice", "filter_seq called twice on the same track with the same kernel object: mean signals, then mean signals of the mean signals under the same window (temp left by the first call and the in-place normalisation do not matter)"),
+        (M, "TV.C15.number_kernel_refused", "a float given as kernel (documented for filter_seq) is refused with a TypeError in the kernel preparation: filter_seq fails at the first dimension, operate always; never a value"),
         (M, "TV.C15.zero_norm_fails", "outside the domain (a zero norm) the method fails with a division by zero for a Kernel object, never a wrong value"),
     ]
     partial = []
     open_statements = ["theorems are over a linearly ordered field: IEEE rounding of the float computation is outside them (sampled by the transfer check at 1e-9)",
-                       "the kernel functions using math.exp / math.pow (Gaussian, Exponential, Cubic, Spheric) and closed-form user functions are a function parameter: "
-                       "window_shape / window_of_nonneg_kernel apply to them under the stated hypotheses (even, non-negative at the sample points, positive at one), which are not proved for libm",
-                       "a weight list whose total sum is 0, weights that are NaN (a feature-name kernel over a feature with NaN) or negative are not modelled (numpy yields nan/inf); "
-                       "a float given as kernel to filter_seq (documented, but a TypeError in the code) is not modelled",
-                       "values read back as numpy scalars by a later call on the same track change ZeroDivisionError into nan outside the domain: sessions use one track per call"]
-    modelled = ("Filter.execute (kernel preparation for weight lists / Kernel objects / Dirac / feature names, odd-window test, window index i-j+D, "
-                "skipping out-of-track and NaN samples, division by the collected norm incl. the int/float/numpy cases of a zero norm, boundary copy), "
-                "Track.operate(Operator.FILTER, af_in, kernel, af_out) with createAnalyticalFeature (reserved names, empty track, new output feature), "
-                "Kernel.evaluate and Kernel.toSlidingWindow (zero sum included), the kernel functions of UniformKernel/TriangularKernel/EpanechnikovKernel, "
-                "user-defined kernels given by a table of values (the other kernel functions are a function parameter tabulated by Python), "
-                "filter_seq (int kernel, one-element list, dispatch on dim: default / module constant / list / str, x/y/z through the feature 'temp', "
-                "in-place renormalisation of the weight list at every dimension), Track.smooth, sessions of calls threading the module-level state")
-    trusted = ["kernel functions using math.exp / math.pow (Gaussian, Exponential, Cubic, Spheric) and closed-form user functions are a parameter of the model: "
+                       "math.exp is a parameter of the Gaussian / Exponential kernel functions: exp_kernel_windows / smooth_gaussian assume it returns positive numbers "
+                       "(true of libm on the sampled range, not proved); closed-form user functions are a function parameter tabulated by Python, "
+                       "window_shape / window_of_nonneg_kernel apply to them under the stated hypotheses (even, non-negative at the sample points, positive at one)",
+                       "a weight list whose total sum is 0, weights that are NaN (a feature-name kernel over a feature with NaN) or negative are not modelled (numpy yields nan/inf)",
+                       "values read back as numpy scalars by a later call on the same track change ZeroDivisionError into nan outside the domain: sessions use one track per call, "
+                       "and the same track is filtered twice only when both passes are in the domain",
+                       "a track shorter than the half window with copied boundaries raises IndexError (short_track_index_error, smooth_too_short_fails): outside the property's "
+                       "quantifier (signals at least as long as the window), not judged; the statement read literally would ask for the input unchanged (see JUDGE_SHORT_INDEXERROR)",
+                       "the list form of Track.operate with outputs that are inputs of later pairs, repeated names or coordinates written in place is modelled (operatePairs) and compared, not judged"]
+    modelled = ("Filter.execute (kernel preparation for weight lists / Kernel objects / Dirac / feature names / a number, odd-window test, window index i-j+D, "
+                "skipping out-of-track and NaN samples, division by the collected norm incl. the int/float/numpy cases of a zero norm, boundary copy incl. the IndexError "
+                "on a track shorter than the half window), "
+                "Track.operate(Operator.FILTER, arg1, kernel[, arg3]) with createAnalyticalFeature (reserved names, empty track, new output feature), output name omitted, "
+                "lists of input / output names (one call per pair with the same kernel object, lengths compared), "
+                "Kernel.evaluate and Kernel.toSlidingWindow (zero sum included), the kernel functions of Uniform/Triangular/Epanechnikov/Cubic/Spheric kernels (math.pow with "
+                "integer exponents as products) and of Gaussian/Exponential kernels (math.exp, math.sqrt(2*math.pi) as parameters: Float.exp / Float.sqrt in the driver), "
+                "user-defined kernels given by a table of values (closed-form user functions are a function parameter tabulated by Python), "
+                "filter_seq (int kernel, default kernel, one-element list, float kernel, dispatch on dim: default / module constant / list / str, x/y/z through the feature 'temp', "
+                "in-place renormalisation of the weight list at every dimension), the same track filtered several times with the same kernel object, Track.smooth (default width), "
+                "sessions of calls threading the module-level state")
+    trusted = ["math.exp / math.sqrt are Float.exp / Float.sqrt of the Lean runtime in the driver (both the C library's); closed-form user kernel functions are a parameter of the model: "
                "their values at the model's sample points are tabulated by the real Python function",
+               "math.pow(a, n) for n = 2, 3, 5, 7 is modelled as a product (exact over the rationals, compared at 1e-9 with floats)",
                "np.sum is modelled as a left-to-right sum; int(support) as floor"]
-    rule = ("signals random-integer / dyadic / float / constant / monotone, with isolated NaN, length window..window+12; kernels: odd weight "
-            "lists with positive weights (symmetric and asymmetric, integer/dyadic/decimal), integers (filter_seq), the built-in "
+    rule = ("signals random-integer / dyadic / float / constant / monotone, with isolated NaN, length window..window+12, and (about one case in seven, every API) shorter than the "
+            "window: 1..window-1, below and above the half window; kernels: odd weight "
+            "lists with positive weights (symmetric and asymmetric, integer/dyadic/decimal), integers (filter_seq, incl. the default kernel), the built-in "
             "non-negative kernels Uniform/Triangular/Epanechnikov/Gaussian/Exponential/Cubic/Spheric/Dirac with widths 1..5, boundary and "
             "non-integer widths, user-defined kernels (Kernel + setFunction) returning Python ints / floats / bools / numpy scalars from a table or a closed form "
-            "(0 at the support edge or not), filterBoundary set to True / False / never set; features via track.operate(FILTER) incl. output into an existing / the same / a new feature "
-            "and kernels given as feature names, x/y/z and features via filter_seq with dim omitted / a module constant / a list / a str, "
-            "Track.smooth, Kernel.toSlidingWindow; sessions of 2-4 calls (filter_seq, Track.smooth, filter_freq) in one process on different tracks, some with an all-NaN "
+            "(0 at the support edge or not), filterBoundary set to True / False / never set; features via track.operate(FILTER) incl. output into an existing / the same / a new feature / "
+            "output name omitted, lists of names (in place, fresh outputs; overlapping / repeated / mismatched lists for correspondence) "
+            "and kernels given as feature names, x/y/z and features via filter_seq with dim omitted / a module constant / a list / a str, once or twice on the same track with the same kernel object, "
+            "Track.smooth (width given or omitted), Kernel.toSlidingWindow; sessions of 2-4 calls (filter_seq, Track.smooth, filter_freq) in one process on different tracks, some with an all-NaN "
             "coordinate or no observation, the module constants and Kernel class attributes being read after every call. All signals over {0,1,NaN} up to length 6 (quick) / 7 (thorough) "
-            "for three kernels; all user tables of length <= 3 over five typed values for supports 1..3. Cases outside the "
+            "for three kernels; every kernel class x boundary flag x track lengths 1, 2, D-1, D, D+1, N-2..N+2; all user tables of length <= 3 over five typed values for supports 1..3. "
+            "Signals shorter than the window ('short') are judged like the others: renormalised mean over the in-track samples when boundaries are filtered, input unchanged when they are "
+            "copied; the IndexError of the boundary copy below the half window is not judged. Cases outside the "
             "property's domain are kept in correspondence-only streams: 'zeronorm' (a window without valid weight), "
-            "'short' (signals shorter than the window), 'badk' (even / empty windows, support < 1, zero-sum kernels, reserved or unknown names, empty tracks); "
+            "'badk' (even / empty windows, support < 1, zero-sum kernels, a float kernel, reserved or unknown names, empty tracks); "
             "'zerow' (weight lists with zero weights) is judged at the indices whose valid weights have a positive sum. non-trivial = window of "
             "at least 3 weights and a non-constant signal (or a sliding-window case)")
 
@@ -288,11 +333,19 @@ class P(Prop):
     BOUNDARY_WIDTHS = {"uniform": [0.5, 0.75, 1], "triangular": [0.75, 1, 1.5], "epanechnikov": [0.75, 1, 1.5],
                        "gaussian": [0.5, 0.75, 1], "exponential": [0.5, 0.75, 1], "cubic": [1, 1.5, 2], "spheric": [1, 1.5, 2]}
     USER_ALPHABET = [["i", 0], ["i", 1], ["f", 0.5], ["f", 0.0], ["F", 0.25]]
+    # one or two sizes of every kernel class, for the enumeration of track lengths around the half window and the window
+    LENGTH_KERNELS = [{"t": "list", "w": [1, 2, 1]}, {"t": "list", "w": [1, 2, 3, 4, 5]}, {"t": "list", "w": [1] * 7},
+                      {"t": "dirac"}, {"t": "uniform", "p": 1}, {"t": "uniform", "p": 2}, {"t": "triangular", "p": 2},
+                      {"t": "epanechnikov", "p": 2}, {"t": "gaussian", "p": 1}, {"t": "gaussian", "p": 2}, {"t": "exponential", "p": 1},
+                      {"t": "cubic", "p": 3}, {"t": "spheric", "p": 3}, {"t": "user", "tbl": [["f", 0.5], ["f", 0.25]], "s": 2.5},
+                      {"t": "userfn", "shape": "tent", "p": 2, "s": 3}]
 
     def exhaustive_scopes(self, tier):
         m = 7 if tier == "thorough" else 6
-        return ["every signal over {0, 1, NaN} of length 3..%d inside the domain, for the weight list [1,2,5], UniformKernel(1) "
+        return ["every signal over {0, 1, NaN} of length 1..%d inside the domain (shorter than the window included), for the weight list [1,2,5], UniformKernel(1) "
                 "with and without boundary filtering" % m,
+                "every kernel class (15 kernels: 3 weight lists, Dirac, Uniform x2, Triangular, Epanechnikov, Gaussian x2, Exponential, Cubic, Spheric, a user table, a user closed form) "
+                "x filterBoundary True / False / never set x track lengths 1, 2, D-1, D, D+1, N-2, N-1, N, N+1, N+2 x three signals (ramp, spike, isolated NaN)",
                 "the sliding window of every user-defined kernel whose table has 1..3 values among int 0, int 1, float 0.5, float 0.0, numpy 0.25, "
                 "for the supports 1, 1.5, 2, 2.5, 3",
                 "the sliding window of every built-in kernel class at its boundary sizes (smallest support >= 1) and at the widths 1..5, 6, 7.5, 10"]
@@ -411,8 +464,14 @@ class P(Prop):
     def rand_seq(self, rng, session=False):
         """one call of filter_seq (None when the draw falls outside the property's domain and session is False)"""
         k = self.rand_kernel(rng, allow_int=True)
+        if k["t"] == "int" and k["n"] == 1 and rng.random() < 0.6:
+            k["omit"] = True          # filter_seq(track[, dim=...]): the default value of `kernel`
         w = shape_weights(k)
         n = max(1, len(w)) + rng.choice([0, 1, 2, rng.randrange(0, 10)])
+        if len(w) >= 3 and rng.random() < 0.15:
+            n = rng.randrange(1, len(w))          # a track shorter than the window
+            if "fb" in k and rng.random() < 0.4:
+                k["fb"] = True
         sc = self.pick_scalar(rng, k)
         empty = session and rng.random() < 0.08
         if empty:
@@ -443,6 +502,14 @@ class P(Prop):
             c["const"] = const
         if not session and not self._in_domain(c):
             return None
+        if not session and k["t"] not in ("feat", "int") and len(w) >= 3 and how != "str" and rng.random() < 0.2:
+            # the same track filtered a second time with the same kernel object (it finds the scratch feature 'temp' and a
+            # weight list already normalised): kept when the signals produced by the first call are in the domain again
+            fbk = bool(k.get("fb"))
+            allsig = dict(sigs, **feats)
+            firsts = [mean_oracle(w, allsig[d], fbk) for d in dims]
+            if all("undefined" not in f and domain_ok(w, f) for f in firsts):
+                c["twice"] = True
         return c
 
     def cases(self, rng, tier):
@@ -450,12 +517,29 @@ class P(Prop):
         quick = tier == "quick"
         # ---- enumerated small scope
         m = 6 if quick else 7
-        for n in range(3, m + 1):
+        for n in range(1, m + 1):
             for v in itertools.product([0, 1, None], repeat=n):
                 v = list(v)
                 for k in ({"t": "list", "w": [1, 2, 5]}, {"t": "uniform", "p": 1, "fb": True}, {"t": "uniform", "p": 1, "fb": False}):
-                    if domain_ok(shape_weights(k), v):
-                        out.append({"kind": "feat", "sig": v, "k": k, "sc": "r"})
+                    w = shape_weights(k)
+                    if domain_ok(w, v):
+                        out.append({"kind": "feat" if n >= len(w) else "short", "sig": v, "k": k, "sc": "r"})
+        # ---- every kernel class x boundary flag x track lengths around the half window D and the window N = 2D+1
+        #      (shorter than the half window, between the half window and the window, equal, just longer)
+        for k0 in self.LENGTH_KERNELS:
+            for fb in ((None,) if k0["t"] == "list" else (True, False, None)):
+                k = dict(k0) if fb is None and k0["t"] == "list" else dict(k0, fb=fb)
+                N = len(shape_weights(k))
+                D = N // 2
+                sc = "f" if k["t"] in TABLE_KERNELS + ("userfn",) else "r"
+                for n in sorted({1, 2, D - 1, D, D + 1, N - 2, N - 1, N, N + 1, N + 2}):
+                    if n < 1:
+                        continue
+                    sigs = [[3 * i - 4 for i in range(n)], [8 if i == n // 2 else 0 for i in range(n)]]
+                    if n >= 3:
+                        sigs.append([None if i == 1 else (i * i) % 7 for i in range(n)])
+                    for v in sigs:
+                        out.append({"kind": "feat" if n >= N else "short", "sig": v, "k": k, "sc": sc})
         # ---- sliding windows of every built-in kernel, boundary sizes included
         for t in OBJ_KERNELS:
             if t == "dirac":
@@ -500,6 +584,13 @@ class P(Prop):
             if c is not None:
                 out.append(c)
                 made += 1
+        # ---- random: the list form of track.operate(FILTER, [names], kernel[, [names]])
+        made = 0
+        while made < (400 if quick else 5000):
+            c = self.rand_opl(rng)
+            if c is not None:
+                out.append(c)
+                made += 1
         # ---- random: x, y, z and features through filter_seq, every form of `dim`
         nseq = 900 if quick else 12000
         made = 0
@@ -511,9 +602,14 @@ class P(Prop):
         # ---- Track.smooth
         for _ in range(150 if quick else 2000):
             wd = rng.choice([1, 1, 2, 1.5, 3, 0.5, 0.75])
+            womit = wd == 1 and rng.random() < 0.5
             n = 2 * int(3 * wd) + 1 + rng.randrange(0, 8)
+            if rng.random() < 0.15:
+                n = rng.randrange(1, 2 * int(3 * wd) + 1)      # shorter than the Gaussian window
             out.append({"kind": "smooth", "x": self.rand_signal(rng, n, nan=False, floats=True), "y": self.rand_signal(rng, n, nan=(rng.random() < 0.3), floats=True),
                         "z": self.rand_signal(rng, n, nan=False, floats=True), "w": wd, "sc": "f"})
+            if womit:
+                out[-1]["womit"] = True
         # ---- sessions: several calls in one process, module-level state read after every call
         for _ in range(350 if quick else 4000):
             steps = []
@@ -525,6 +621,8 @@ class P(Prop):
                 elif r < 0.9:
                     wd = rng.choice([1, 1, 2, 1.5, 0.5])
                     n = 0 if rng.random() < 0.08 else 2 * int(3 * wd) + 1 + rng.randrange(0, 6)
+                    if n and rng.random() < 0.15:
+                        n = rng.randrange(1, 2 * int(3 * wd) + 1)
                     st = {"api": "smooth", "w": wd, "x": self.rand_signal(rng, n, nan=False, floats=True),
                           "y": self.rand_signal(rng, n, nan=(rng.random() < 0.3), floats=True), "z": self.rand_signal(rng, n, nan=False, floats=True)}
                     if n and rng.random() < 0.3:
@@ -574,14 +672,17 @@ class P(Prop):
                 v[i] = None
             if not domain_ok([Fraction(x) for x in w], v):
                 out.append({"kind": "zeronorm", "sig": v, "k": {"t": "list", "w": w}, "sc": "r"})
-        # ---- outside the quantifier: signals shorter than the window (correspondence only; IndexError when the
-        #      track is shorter than the half window and boundaries are copied)
+        # ---- signals shorter than the window: the window overhangs both ends at once. Judged like any other signal
+        #      (renormalised mean when boundaries are filtered, input unchanged when they are copied); IndexError when
+        #      the track is shorter than the half window and boundaries are copied (not judged, see index_zone)
         made = 0
-        while made < (300 if quick else 3000):
+        while made < (500 if quick else 5000):
             k = self.rand_kernel(rng)
             N = len(shape_weights(k))
             if N < 3:
                 continue
+            if "fb" in k and rng.random() < 0.4:
+                k["fb"] = True
             n = rng.randrange(1, N)
             sc = self.pick_scalar(rng, k)
             out.append({"kind": "short", "sig": self.rand_signal(rng, n, nan=(rng.random() < 0.3), floats=(sc == "f")), "k": k, "sc": sc})
@@ -605,6 +706,10 @@ class P(Prop):
             k = self.rand_kernel(rng)
             sc = self.pick_scalar(rng, k)
             n = max(n, len(shape_weights(k)))
+            if n >= 3 and rng.random() < 0.15:
+                n = rng.randrange(1, len(shape_weights(k))) if len(shape_weights(k)) >= 3 else n
+                if "fb" in k and rng.random() < 0.4:
+                    k["fb"] = True
         sigs = {nm: self.rand_signal(rng, n, nan=False, floats=(sc == "f")) for nm in ("x", "y", "z")}
         feats = {"a": self.rand_signal(rng, n, floats=(sc == "f")), "c": self.rand_signal(rng, n, floats=(sc == "f"))}
         if featk:
@@ -618,9 +723,53 @@ class P(Prop):
         af_out = rng.choice(["b", "b", af_in if af_in in feats else "b", "c", "a"])
         if featk and af_out == k["name"]:
             af_out = "b"
+        if af_in in feats and rng.random() < 0.2:
+            af_out = None        # third argument omitted: output into the input feature
         c = {"kind": "op", "x": sigs["x"], "y": sigs["y"], "z": sigs["z"], "feats": feats, "in": af_in, "out": af_out, "k": k, "sc": sc}
         w = self.op_weights(c)
         if not domain_ok(w, dict(sigs, **feats)[af_in]):
+            return None
+        return c
+
+    def rand_opl(self, rng):
+        """track.operate(FILTER, [names], kernel[, [names]]): the list form (one call of Filter.execute per pair, the kernel
+        being the same object at every turn); 'judge' tells whether the property says what the final track is (in place on
+        distinct features, or distinct fresh output names) — the other forms are kept for correspondence only"""
+        k = self.rand_kernel(rng)
+        sc = self.pick_scalar(rng, k)
+        N = len(shape_weights(k))
+        n = max(1, N) + rng.choice([0, 1, 2, rng.randrange(0, 8)])
+        if N >= 3 and rng.random() < 0.15:
+            n = rng.randrange(1, N)
+            if "fb" in k and rng.random() < 0.4:
+                k["fb"] = True
+        sigs = {nm: self.rand_signal(rng, n, nan=False, floats=(sc == "f")) for nm in ("x", "y", "z")}
+        feats = {nm: self.rand_signal(rng, n, floats=(sc == "f")) for nm in ("a", "c", "d")}
+        form = rng.choice(["omitted", "omitted", "same", "fresh", "fresh", "overlap", "mismatch", "coord", "empty", "dup"])
+        judge = form in ("omitted", "same", "fresh")
+        fnames = ["a", "c", "d"]
+        if form in ("omitted", "same"):
+            ins = rng.sample(fnames, rng.randrange(1, 4))
+            outs = None if form == "omitted" else list(ins)
+        elif form == "fresh":
+            ins = rng.sample(["x", "y", "z"] + fnames, rng.randrange(1, 4))
+            outs = ["o%d" % i for i in range(len(ins))]
+        elif form == "overlap":
+            ins = rng.choice([["a", "c"], ["a", "c", "d"], ["a", "a"], ["x", "a"]])
+            outs = {2: ["c", "d"], 3: ["c", "d", "a"]}[len(ins)] if ins[0] != ins[-1] or len(ins) == 3 else ["a", "o0"]
+        elif form == "mismatch":
+            ins = rng.sample(fnames, rng.randrange(1, 4))
+            outs = ["o%d" % i for i in range(len(ins) + rng.choice([-1, 1]))]
+        elif form == "coord":
+            ins, outs = rng.choice([["x"], ["a", "y"], ["z", "a"]]), None
+        elif form == "empty":
+            ins, outs = [], rng.choice([None, []])
+        else:
+            ins = rng.choice([["a", "a"], ["c", "a", "c"]])
+            outs = None
+        c = {"kind": "opl", "x": sigs["x"], "y": sigs["y"], "z": sigs["z"], "feats": feats, "ins": ins, "outs": outs,
+             "k": k, "sc": sc, "form": form, "judge": judge}
+        if judge and not self._in_domain(c):
             return None
         return c
 
@@ -640,7 +789,7 @@ class P(Prop):
         n = rng.choice([0, 3, 4, 5, 7])
         sigs = {nm: self.rand_signal(rng, n, nan=False) for nm in ("x", "y", "z")}
         feats = {"a": self.rand_signal(rng, n, nan=False)} if n else {}
-        what = rng.choice(["even", "int", "support", "zerosum", "reserved", "unknown", "empty", "strdim", "newfeat"])
+        what = rng.choice(["even", "int", "support", "zerosum", "reserved", "unknown", "empty", "strdim", "newfeat", "float"])
         k = {"t": "list", "w": [1, 2, 1]}
         dims, how = ["x", "y"], "list"
         if what == "even":
@@ -666,6 +815,10 @@ class P(Prop):
             how, dims = "str", list(rng.choice(["a", "xa", "ab", "speed", "xyt", ""]))
         elif what == "newfeat":
             dims = rng.choice([["n"], ["x", "n"], ["n", "n"]])
+        elif what == "float":
+            # the documented "float number giving the half width of a rectangular window": a TypeError in the code
+            k = {"t": "num", "v": rng.choice([1.0, 2.0, 2.5]), "np": rng.random() < 0.3}
+            dims = rng.choice([["x", "y"], ["x"], [], ["q"], ["t"]])
         return {"kind": "badk", "x": sigs["x"], "y": sigs["y"], "z": sigs["z"], "feats": feats, "dims": dims, "k": k, "sc": "r", "how": how}
 
     def pick_scalar(self, rng, k):
@@ -690,13 +843,23 @@ class P(Prop):
             t["filterBoundary"] = k["fb"]
         if "how" in case:
             t["dim"] = case["how"]
+        if kind == "seq":
+            t["calls_on_the_track"] = 2 if case.get("twice") else 1
+            t["kernel_argument"] = "omitted" if k.get("omit") else "given"
+        if kind == "smooth":
+            t["width_argument"] = "omitted" if case.get("womit") else "given"
+        if kind == "opl":
+            t["form"] = case["form"]
+        if kind == "op":
+            t["output"] = "omitted" if case["out"] is None else ("input" if case["out"] == case["in"] else "other")
         if k["t"] == "user":
             t["user_types"] = "".join(sorted({e[0] for e in k["tbl"]}))
             t["edge_zero_int"] = bool(k["tbl"]) and k["tbl"][-1][1] == 0 and k["tbl"][-1][0] in ("i", "I", "b") or int(k["s"]) >= len(k["tbl"])
         sig = case.get("sig") or case.get("y")
         if sig is not None and k["t"] != "feat":
             t["nan"] = any(x is None for x in sig)
-            t["slack"] = min(3, len(sig) - len(shape_weights(k))) if kind != "smooth" else "-"
+            N = len(shape_weights(k if kind != "smooth" else {"t": "gaussian", "p": case["w"]}))
+            t["slack"] = min(3, len(sig) - N) if len(sig) >= N else ("shorter-than-half-window" if len(sig) < N // 2 else "shorter-than-window")
         if k["t"] == "list":
             t["window"] = len(k["w"])
             t["asymmetric"] = k["w"] != k["w"][::-1]
@@ -709,16 +872,18 @@ class P(Prop):
         kind = case["kind"]
         if kind == "sw":
             return True
-        if kind in ("zeronorm", "short", "badk"):
+        if kind in ("zeronorm", "badk"):
             return False
         if kind == "session":
             return sum(1 for st in case["steps"] if st["api"] != "freq") >= 2
         if kind == "op":
             w = self.op_weights(case)
             return len(w) >= 3
+        if kind == "opl":
+            return bool(case["judge"]) and len(shape_weights(case["k"])) >= 3
         if len(self.kweights(case)) < 3:
             return False
-        sigs = [case["sig"]] if kind in ("feat", "zerow") else [case["x"], case["y"], case["z"]]
+        sigs = [case["sig"]] if kind in ("feat", "zerow", "short") else [case["x"], case["y"], case["z"]]
         return any(len(set(x for x in s if x is not None)) > 1 for s in sigs)
 
     # ---------------------------------------------------------------- implementation
@@ -762,6 +927,8 @@ class P(Prop):
             return list(k["w"])
         if t == "int":
             return k["n"]
+        if t == "num":
+            return self.np.float64(k["v"]) if k.get("np") else float(k["v"])
         if t == "feat":
             return k["name"]
         if t == "dirac":
@@ -781,7 +948,7 @@ class P(Prop):
 
     def window_of(self, k):
         """the weights the implementation says it uses for a Kernel object (observed, not recomputed)"""
-        if k["t"] in ("list", "int", "feat"):
+        if k["t"] in ("list", "int", "feat", "num"):
             return None
         if k["t"] == "dirac":
             return [0.0, 1.0, 0.0]
@@ -821,13 +988,25 @@ class P(Prop):
             for nm, v in st.get("feats", {}).items():
                 t.createAnalyticalFeature(nm, [num(a) for a in v])
             if api == "smooth":
-                t.smooth(st["w"])
+                if st.get("womit"):
+                    t.smooth()            # the default value of `width`
+                else:
+                    t.smooth(st["w"])
                 r = t
             else:
                 if kern is None:
                     kern = self.mk_kernel(k)
                 how = st.get("how", "list")
-                if how == "default":
+                if k.get("omit"):
+                    if how == "default":
+                        r = self.F.filter_seq(t)
+                    elif how == "const":
+                        r = self.F.filter_seq(t, dim=getattr(self.F, st["const"]))
+                    elif how == "str":
+                        r = self.F.filter_seq(t, dim="".join(st["dims"]))
+                    else:
+                        r = self.F.filter_seq(t, dim=list(st["dims"]))
+                elif how == "default":
                     r = self.F.filter_seq(t, kern)
                 elif how == "const":
                     r = self.F.filter_seq(t, kern, getattr(self.F, st["const"]))
@@ -835,7 +1014,17 @@ class P(Prop):
                     r = self.F.filter_seq(t, kern, "".join(st["dims"]))
                 else:
                     r = self.F.filter_seq(t, kern, list(st["dims"]))
-            res = {"sigs": self.read_track(t), "same": r is t}
+                if st.get("twice"):
+                    # a second call on the same track with the same kernel object
+                    sigs1 = self.read_track(t)
+                    if how == "default":
+                        r = self.F.filter_seq(t, kern)
+                    elif how == "const":
+                        r = self.F.filter_seq(t, kern, getattr(self.F, st["const"]))
+                    else:
+                        r = self.F.filter_seq(t, kern, list(st["dims"]))
+                    res["sigs1"] = sigs1
+            res = dict(res, sigs=self.read_track(t), same=r is t)
         except BaseException as e:
             if isinstance(e, KeyboardInterrupt):
                 raise
@@ -863,10 +1052,25 @@ class P(Prop):
             for nm, v in case["feats"].items():
                 t.createAnalyticalFeature(nm, [num(a) for a in v])
             kern = self.mk_kernel(case["k"])
-            ret = t.operate(self.Operator.FILTER, case["in"], kern, case["out"])
+            if case["out"] is None:
+                ret = t.operate(self.Operator.FILTER, case["in"], kern)
+            else:
+                ret = t.operate(self.Operator.FILTER, case["in"], kern, case["out"])
             return {"ret": [canon(a) for a in ret], "sigs": self.read_track(t),
                     "kafter": [canon(a) for a in kern] if isinstance(kern, list) else None,
                     "window": self.window_of(case["k"]), "state": self.globals_now()}
+        if kind == "opl":
+            t = self.mk_track(case["x"], case["y"], case["z"])
+            for nm, v in case["feats"].items():
+                t.createAnalyticalFeature(nm, [num(a) for a in v])
+            kern = self.mk_kernel(case["k"])
+            if case["outs"] is None:
+                ret = t.operate(self.Operator.FILTER, list(case["ins"]), kern)
+            else:
+                ret = t.operate(self.Operator.FILTER, list(case["ins"]), kern, list(case["outs"]))
+            return {"ret": None if ret is None else "something", "sigs": self.read_track(t),
+                    "kafter": [canon(a) for a in kern] if isinstance(kern, list) else None,
+                    "window": self.window_of(case["k"])}
         if kind in ("seq", "smooth", "badk"):
             if kind == "badk" and "dims" not in case:
                 return {"window": self.window_of(case["k"])}
@@ -926,12 +1130,18 @@ class P(Prop):
             return "list " + tok_list(self.tok(sc, w) for w in k["w"])
         if t == "int":
             return "int %d" % k["n"]
+        if t == "num":
+            return "num"
         if t == "feat":
             return "feat " + k["name"]
         if t == "dirac":
             return "dirac " + self.fbtok(k)
         if sc == "r" and t in RATIONAL_KERNELS:
-            return "%s %s %s" % ({"uniform": "uni", "triangular": "tri", "epanechnikov": "epa"}[t], self.fbtok(k), ratstr(k["p"]))
+            return "%s %s %s" % ({"uniform": "uni", "triangular": "tri", "epanechnikov": "epa", "cubic": "cub", "spheric": "sph"}[t],
+                                 self.fbtok(k), ratstr(k["p"]))
+        if sc == "f" and t in TABLE_KERNELS:
+            # the model evaluates math.exp / math.sqrt itself (Float.exp / Float.sqrt of the Lean runtime)
+            return "%s %s %s" % ({"gaussian": "gau", "exponential": "expo"}[t], self.fbtok(k), fbits(k["p"]))
         if t == "user":
             return "user %s %s %s" % (self.fbtok(k), self.tok(sc, k["s"]), tok_list(self.tok(sc, val) for _, val in k["tbl"]))
         # any other Kernel object: its Python function tabulated at the half-integers around the window
@@ -942,7 +1152,7 @@ class P(Prop):
         return "fn %s %s %s" % (self.fbtok(k), self.tok(sc, o.support), tok_list("%s:%s" % (self.tok(sc, x), self.tok(sc, float(f(x)))) for x in pts))
 
     def needs_sw(self, k):
-        return k["t"] not in ("list", "int", "dirac", "feat")
+        return k["t"] not in ("list", "int", "dirac", "feat", "num")
 
     def track_tok(self, sc, st):
         feats = st.get("feats", {})
@@ -978,13 +1188,26 @@ class P(Prop):
             return ls
         if kind == "op":
             k = case["k"]
-            ls = ["C15.op %s %s %s %s %s" % (sc, case["in"], case["out"], self.track_tok(sc, case), self.kspec(sc, k))]
+            if case["out"] is None:
+                ls = ["C15.opa %s one %s - %s %s" % (sc, case["in"], self.track_tok(sc, case), self.kspec(sc, k))]
+            else:
+                ls = ["C15.op %s %s %s %s %s" % (sc, case["in"], case["out"], self.track_tok(sc, case), self.kspec(sc, k))]
+            if self.needs_sw(k):
+                ls.append("C15.sw %s %s" % (sc, self.kspec(sc, k)))
+            return ls
+        if kind == "opl":
+            k = case["k"]
+            ls = ["C15.opa %s many %s %s %s %s" % (sc, tok_list(case["ins"]), "-" if case["outs"] is None else tok_list(case["outs"]),
+                                                   self.track_tok(sc, case), self.kspec(sc, k))]
             if self.needs_sw(k):
                 ls.append("C15.sw %s %s" % (sc, self.kspec(sc, k)))
             return ls
         if kind in ("seq", "badk"):
             k = case["k"]
-            ls = ["C15.seq %s %s %s %s" % (sc, self.dim_tok(case), self.track_tok(sc, case), self.kspec(sc, k))]
+            if case.get("twice"):
+                ls = ["C15.seqn %s 2 %s %s %s" % (sc, self.dim_tok(case), self.track_tok(sc, case), self.kspec(sc, k))]
+            else:
+                ls = ["C15.seq %s %s %s %s" % (sc, self.dim_tok(case), self.track_tok(sc, case), self.kspec(sc, k))]
             if self.needs_sw(k):
                 ls.append("C15.sw %s %s" % (sc, self.kspec(sc, k)))
             return ls
@@ -1011,7 +1234,7 @@ class P(Prop):
         return [self.val(sc, t) for t in untok(tok, sep)]
 
     def decode_sw(self, sc, k, reply):
-        if k["t"] in ("list", "int", "feat"):
+        if k["t"] in ("list", "int", "feat", "num"):
             return None
         if k["t"] == "dirac":
             return [0.0, 1.0, 0.0]
@@ -1067,9 +1290,23 @@ class P(Prop):
             sigs = [self.vals(sc, s) for s in untok(r[4], ";")]
             return {"ret": self.vals(sc, r[2]), "sigs": dict(zip(names, sigs)), "kafter": None if r[1] == "none" else self.vals(sc, r[1]),
                     "window": self.decode_window(case, case["k"], replies), "state": self.decode_globals(self.PRISTINE_TOKEN)}
+        if kind == "opl":
+            r = replies[0].split(" ")
+            if r[0] != "ok":
+                return {"err": r[0]}
+            names = untok(r[3])
+            sigs = [self.vals(sc, s) for s in untok(r[4], ";")]
+            return {"ret": None if r[2] == "none" else "something", "sigs": dict(zip(names, sigs)),
+                    "kafter": None if r[1] == "none" else self.vals(sc, r[1]), "window": self.decode_window(case, case["k"], replies)}
         if kind in ("seq", "smooth", "badk"):
             k = case["k"] if kind != "smooth" else {"t": "gaussian", "p": case["w"], "fb": None}
-            res = self.decode_call(sc, replies[0], self.decode_window(case, k, replies))
+            if case.get("twice"):
+                parts = replies[0].split(" # ")
+                res = self.decode_call(sc, parts[-1], self.decode_window(case, k, replies))
+                if len(parts) == 2 and "err" not in res:
+                    res["sigs1"] = self.decode_call(sc, parts[0], None)["sigs"]
+            else:
+                res = self.decode_call(sc, replies[0], self.decode_window(case, k, replies))
             if "err" in res:
                 res.pop("state")
             return res
@@ -1094,7 +1331,8 @@ class P(Prop):
     PRISTINE_TOKEN = "FILTER_X=x|FILTER_Y=y|FILTER_Z=z|FILTER_XY=x.y|FILTER_XZ=x.z|FILTER_YZ=y.z|FILTER_XYZ=x.y.z;0"
     ERR_MAP = {"err:even-kernel": ("err:NameError", "err:KernelError"), "err:zerodiv": ("err:zerodiv",),
                "err:index": ("err:index",), "err:support": ("err:NameError", "err:KernelError"),
-               "err:feature": ("err:AnalyticalFeatureError",), "err:empty-track": ("err:AnalyticalFeatureError",)}
+               "err:feature": ("err:AnalyticalFeatureError",), "err:empty-track": ("err:AnalyticalFeatureError",),
+               "err:operands": ("err:NameError", "err:OperatorError"), "err:kernel-type": ("err:type", "err:TypeError")}
 
     def compare_one(self, impl_out, model_out):
         if "err" in impl_out or "err" in model_out:
@@ -1149,6 +1387,25 @@ class P(Prop):
         if not out["same"]:
             return "filter_seq did not return the track it filtered"
         allsig = dict({"x": st["x"], "y": st["y"], "z": st["z"]}, **st.get("feats", {}))
+        if st.get("twice"):
+            # two calls on the same track: the first is judged on the track read between the calls, the second on what the
+            # first one left (when that is in the domain again)
+            first = out.get("sigs1")
+            if not isinstance(first, dict):
+                return "the track was not read after the first call"
+            for nm, v in allsig.items():
+                if nm in dims:
+                    bad = check_signal(w, v, fb, first.get(nm), "%s after the first call" % nm)
+                    if bad:
+                        return bad
+                    v1 = first[nm]
+                    if domain_ok(w, v1):
+                        bad = check_signal(w, v1, fb, out["sigs"].get(nm), "%s after the second call (input: the result of the first)" % nm)
+                        if bad:
+                            return bad
+                elif out["sigs"].get(nm) != [canon(num(a)) for a in v] or first.get(nm) != [canon(num(a)) for a in v]:
+                    return "%s was not to be filtered but changed: %r -> %r" % (nm, v, out["sigs"].get(nm))
+            return None
         for nm, v in allsig.items():
             got = out["sigs"].get(nm)
             if nm in dims and len(w) != 1:
@@ -1161,8 +1418,9 @@ class P(Prop):
 
     def spec(self, case, out):
         kind = case["kind"]
-        if kind in ("zeronorm", "short", "badk"):
-            return None  # outside the domain of the property (a window without valid weight / a signal shorter than the window / a refused call)
+        if kind in ("zeronorm", "badk") or (kind == "opl" and not case["judge"]):
+            return None  # outside the domain of the property (a window without valid weight / a refused call / a form of
+            #              the list arguments whose final track the property does not describe)
         if kind == "session":
             if "steps" not in out:
                 return "the session raised %s (%s)" % (out.get("err"), out.get("detail", ""))
@@ -1179,18 +1437,37 @@ class P(Prop):
             return self.judge_error(case, out)
         if kind == "sw":
             return check_window(out["window"])
-        if kind in ("feat", "zerow"):
+        if kind in ("feat", "zerow", "short"):
             w, fb, bad = self.weights_for(case["k"], out)
             if bad:
                 return bad
+            if kind == "short" and not domain_ok(w, case["sig"]):
+                return None      # a window without valid weight (or a negative weight): outside the domain
             if out["input_after"] != [canon(num(a)) for a in case["sig"]]:
                 return "the input feature was modified: %r" % out["input_after"]
             return check_signal(w, case["sig"], fb, out["out"], "feature", skip_undefined=(kind == "zerow"))
+        if kind == "opl":
+            w, fb, bad = self.weights_for(case["k"], out, case)
+            if bad:
+                return bad
+            allsig = dict({"x": case["x"], "y": case["y"], "z": case["z"]}, **case["feats"])
+            outs = case["outs"] if case["outs"] is not None else case["ins"]
+            src = dict(zip(outs, case["ins"]))
+            for nm in list(allsig) + [o for o in outs if o not in allsig]:
+                got = out["sigs"].get(nm)
+                if nm in src:
+                    bad = check_signal(w, allsig[src[nm]], fb, got, "feature %s (filtered %s)" % (nm, src[nm]))
+                    if bad:
+                        return bad
+                elif got != [canon(num(a)) for a in allsig[nm]]:
+                    return "%s was not to be filtered but changed: %r -> %r" % (nm, allsig[nm], got)
+            return None
         if kind == "op":
             w, fb, bad = self.weights_for(case["k"], out, case)
             if bad:
                 return bad
             allsig = dict({"x": case["x"], "y": case["y"], "z": case["z"]}, **case["feats"])
+            case = dict(case, out=case["out"] if case["out"] is not None else case["in"])
             bad = check_signal(w, allsig[case["in"]], fb, out["sigs"].get(case["out"]), "feature %s" % case["out"])
             if bad:
                 return bad
@@ -1203,30 +1480,59 @@ class P(Prop):
             return None
         return self.spec_seq(dict(case, api="smooth" if kind == "smooth" else "seq"), out)
 
+    # the IndexError of the boundary copy on a track shorter than the half window (index_zone) is outside the property's
+    # quantifier ("signals of length at least the window length") and is not judged; set to True to judge it as a
+    # failure of "the first and last half-window values are returned unchanged" (class short-track-boundary-copy-indexerror)
+    JUDGE_SHORT_INDEXERROR = False
+
+    def case_signals(self, case):
+        kind = case["kind"]
+        if kind in ("feat", "short", "zerow", "zeronorm"):
+            return [case["sig"]]
+        allsig = dict({"x": case["x"], "y": case["y"], "z": case["z"]}, **case.get("feats", {}))
+        if kind == "op":
+            return [allsig[case["in"]]]
+        if kind == "opl":
+            return [allsig[d] for d in case["ins"] if d in allsig]
+        dims = ["x", "y", "z"] if kind == "smooth" else case.get("dims", ["x", "y", "z"])
+        return [allsig[d] for d in dims if d in allsig]
+
     def judge_error(self, case, out):
-        """an exception inside the property's domain is a failure; a ZeroDivisionError is outside the domain when,
-        with the sliding window the implementation itself exposes (well shaped), some window has no valid weight"""
+        """an exception inside the property's domain is a failure. Outside it: a ZeroDivisionError when, with the sliding
+        window the implementation itself exposes (well shaped), some window has no valid weight; an IndexError when the
+        boundaries are copied on a track shorter than the half window (see index_zone)"""
         msg = "raised %s (%s)" % (out["err"], out.get("detail", ""))
+        kind = case["kind"]
         k = case.get("k", {"t": "gaussian", "p": case.get("w"), "fb": None})
-        if case["kind"] == "zerow" and out["err"] == "err:zerodiv":
+        if kind == "zerow" and out["err"] == "err:zerodiv":
             return None      # some window has no valid weight: outside the domain, the call may fail
-        if case["kind"] == "sw" or out["err"] != "err:zerodiv" or k["t"] in ("list", "int", "feat"):
+        if kind == "sw" or out["err"] not in ("err:zerodiv", "err:index"):
             return msg
-        win = out.get("window")
-        if check_window(win) or any(x < 0 for x in win):
-            return msg
-        w = [Fraction(x) for x in win]
-        if case["kind"] in ("feat",):
-            sigs = [case["sig"]]
-        elif case["kind"] == "op":
-            sigs = [dict({"x": case["x"], "y": case["y"], "z": case["z"]}, **case["feats"])[case["in"]]]
+        if k["t"] in ("list", "int", "feat"):
+            w, fb = self.kweights(case), False
         else:
-            sigs = [dict({"x": case["x"], "y": case["y"], "z": case["z"]}, **case.get("feats", {}))[d] for d in case.get("dims", ["x", "y", "z"])]
+            win = out.get("window")
+            if check_window(win) or any(x < 0 for x in win):
+                return msg
+            w, fb = [Fraction(x) for x in win], bool(k.get("fb"))
+        sigs = self.case_signals(case)
+        if kind == "short" and not domain_ok(w, sigs[0]):
+            return None      # a window without valid weight: outside the domain
+        if out["err"] == "err:index":
+            if sigs and all(index_zone(w, fb, len(v)) for v in sigs):
+                if self.JUDGE_SHORT_INDEXERROR:
+                    return msg + ": boundaries are not filtered, so every value of a track shorter than the half window was to be returned unchanged"
+                return None
+            return msg
+        if k["t"] in ("list", "int", "feat"):
+            return msg
         if any(not domain_ok(w, v) for v in sigs):
             return None
         return msg
 
     def classify(self, case, impl_out, msg):
+        if self.JUDGE_SHORT_INDEXERROR and isinstance(impl_out, dict) and impl_out.get("err") == "err:index" and "shorter than the half window" in (msg or ""):
+            return "short-track-boundary-copy-indexerror"
         return None
 
     # ---------------------------------------------------------------- shrinking / search
@@ -1267,6 +1573,30 @@ class P(Prop):
                         c["api"] = st["api"]
                     yield dict(case, steps=steps[:i] + [c] + steps[i + 1:])
             return
+        if kind == "opl":
+            if not case["judge"]:
+                return
+            ins, outs = case["ins"], case["outs"]
+            if len(ins) > 1:
+                for j in range(len(ins)):
+                    yield dict(case, ins=ins[:j] + ins[j + 1:], outs=None if outs is None else outs[:j] + outs[j + 1:])
+            n, N = len(case["x"]), len(shape_weights(case["k"]))
+            if n > N or 1 < n < N:
+                for i in range(n):
+                    c = dict(case, feats={a: v[:i] + v[i + 1:] for a, v in case["feats"].items()})
+                    for nm in ("x", "y", "z"):
+                        c[nm] = case[nm][:i] + case[nm][i + 1:]
+                    if self._in_domain(c):
+                        yield c
+            for a in ins:
+                if a in case["feats"]:
+                    v = case["feats"][a]
+                    for i in range(len(v)):
+                        if v[i] not in (0, 1):
+                            c = dict(case, feats=dict(case["feats"], **{a: v[:i] + [0] + v[i + 1:]}))
+                            if self._in_domain(c):
+                                yield c
+            return
         if kind in ("op", "badk"):
             return
         k = case.get("k", {"t": "gaussian", "p": case.get("w")})
@@ -1276,7 +1606,7 @@ class P(Prop):
         names = self._sig_names(case)
         n = len(case[names[0]])
         # drop one position of every signal
-        if n > N:
+        if n > N or (n > 1 and n < N):
             for i in range(n):
                 c = dict(case)
                 for nm in names:
@@ -1323,6 +1653,10 @@ class P(Prop):
         if kind == "op":
             allsig = dict({"x": case["x"], "y": case["y"], "z": case["z"]}, **case["feats"])
             return domain_ok(self.op_weights(case), allsig[case["in"]])
+        if kind == "opl":
+            allsig = dict({"x": case["x"], "y": case["y"], "z": case["z"]}, **case["feats"])
+            w = shape_weights(case["k"])
+            return (not case["judge"]) or (sum(w) > 0 and all(domain_ok(w, allsig[d]) for d in case["ins"]))
         k = case.get("k", {"t": "gaussian", "p": case.get("w")}) if kind != "smooth" else {"t": "gaussian", "p": case["w"]}
         if k["t"] not in ("list", "int", "dirac", "feat") and support_of(k) < 1:
             return False
@@ -1346,7 +1680,7 @@ class P(Prop):
                 for p in self.WIDTHS:
                     yield dict(case, k=dict(case["k"], p=p))
             return
-        if kind in ("session", "op", "badk"):
+        if kind in ("session", "op", "opl", "badk"):
             return
         for _ in range(20):
             c = dict(case)
